@@ -72,8 +72,9 @@ func (r *yieldReader) Read(p []byte) (int, error) {
 
 // c10Shared is the state a scenario's calls may share; fresh per execution.
 type c10Shared struct {
-	query *json.FieldQuery
-	path  *json.Path
+	query  *json.FieldQuery
+	query2 *json.FieldQuery
+	path   *json.Path
 }
 
 type c10Call struct {
@@ -105,6 +106,9 @@ func c10Calls() []c10Call {
 		{"MarshalIndent(T)", func(y func(string), sh *c10Shared) string { return res(json.MarshalIndent(&valT, "", " ")) }},
 		{"MarshalContext(T, shared query)", func(y func(string), sh *c10Shared) string {
 			return res(json.MarshalContext(json.SetFieldQueryToContext(context.Background(), sh.query), valT))
+		}},
+		{"MarshalContext(T, second shared query)", func(y func(string), sh *c10Shared) string {
+			return res(json.MarshalContext(json.SetFieldQueryToContext(context.Background(), sh.query2), valT))
 		}},
 		{"Unmarshal(->T)", func(y func(string), sh *c10Shared) string {
 			var v c10T
@@ -185,7 +189,8 @@ func c10Calls() []c10Call {
 func c10Fresh() *c10Shared {
 	q, _ := json.BuildFieldQuery("a", json.BuildSubFieldQuery("e").Fields("x"))
 	p, _ := json.CreatePath("$.a.b")
-	return &c10Shared{query: q, path: p}
+	q2, _ := json.BuildFieldQuery("b", "c", json.BuildSubFieldQuery("e").Fields("y"))
+	return &c10Shared{query: q, query2: q2, path: p}
 }
 
 // c10Prologue: calls that fail half-way, run sequentially before the goroutines start. Their
